@@ -52,13 +52,16 @@
   components the mask part requires (what `.Relations(…)` accepts); `setrelb` names targets the
   client was given, and — unless `rels = []`, rejected cleanly — no component twice and only
   components the filter REQUIRES.  A `SetRelationsBatch` on a component some selected entity lacks
-  panics AFTER taking the world lock (finding below): not a step.  A removed target and a
+  panics in the planning loop, after destination tables may have been created (finding below; the
+  world is not left locked since the repair D27, which takes the lock after the planning): it is
+  not rejected with the world unchanged, and not a step.  A removed target and a
   non-relation component ARE steps (rejected by the pre-validation, nothing touched).  `xchgb`:
   as the single `xchg` (registered IDs to add, `RelsStep`, expressible targets), and the part of
   the precondition of `Exchange` that concerns the component set (`XchgLocal`: `rem` distinct
   components it has, `add` distinct components it lacks) holds on EVERY selected entity — or both
   lists are empty, which is rejected cleanly; a batch whose precondition fails on some selected
-  entity leaves the world LOCKED (finding below) and is not a step.
+  entity panics in the planning loop and keeps the tables created before (finding below; since the
+  repair D27 the world is no longer left locked) and is not a step.
 
   Bound (`Fits Budget.init ops`, Ark/Proofs/RelRefineBatchHist.lean): a budget (tables, relation
   archetypes, index slots) starting at `(1, 0, 2)`; decidable.  Sufficient: `fits_base`
@@ -809,10 +812,14 @@ example :
 
 /-- **finding (why "only components the filter requires" is part of `guardRB`)**: in the state
     before the batches the filter "has `Pos`" selects all six entities; `gp` has no `ChildOf`.
-    `SetRelationsBatch(ChildOf → pb)` on it passes the pre-validation, takes the world lock, moves
-    nothing and panics (`noRelComponent`) when it reaches the table of `gp`: the world stays
-    LOCKED (Go's `panic` unwinds past the `unlock`), so every later structural operation panics
-    `locked`.  Such a call is not "rejected without effect", and it is not a step of the machine
+    `SetRelationsBatch(ChildOf → pb)` on it passes the pre-validation and panics (`noRelComponent`)
+    when the planning loop reaches the table of `gp` — here the first table, so nothing was created
+    yet.  With one more entity `8.0` that has `Pos` and `Parent` but no `ChildOf`, the filter "has
+    `Parent`" selects the table of `pa`, `pb` first: the planning creates the destination table
+    (`ChildOf → pb`) for it and THEN panics at the table of `8.0`.  Since the repair D27 the world
+    lock is taken only after the planning loop, so the world is NOT left locked (before, Go's
+    `panic` unwound past the `unlock`); but the table the planning created remains (6 → 7 tables),
+    so such a call is not "rejected with the world unchanged", and it is not a step of the machine
     (`guardRB = false`). -/
 example :
     guardRB (reachRB noProbe 2 2 (demoOps.take 9)) (.setrelb .typed (has [1]) [] [⟨0, pb⟩]) = false ∧
@@ -820,7 +827,22 @@ example :
       (.setrelb .typed (has [1]) [] [⟨0, pb⟩])) = some .noRelComponent ∧
     (reachRB noProbe 2 2 (demoOps.take 9)).w.isLocked = false ∧
     (execRB noProbe (reachRB noProbe 2 2 (demoOps.take 9)).w
-      (.setrelb .typed (has [1]) [] [⟨0, pb⟩])).state.isLocked = true := by
+      (.setrelb .typed (has [1]) [] [⟨0, pb⟩])).state.isLocked = false := by
+  decide +kernel
+
+example :
+    guardRB (reachRB noProbe 2 2 (demoOps.take 9 ++ [.base (.new .typed [1, 2] [] [])]))
+      (.setrelb .typed (has [2]) [] [⟨0, pb⟩]) = false ∧
+    panicOf (execRB noProbe (reachRB noProbe 2 2 (demoOps.take 9 ++ [.base (.new .typed [1, 2] [] [])])).w
+      (.setrelb .typed (has [2]) [] [⟨0, pb⟩])) = some .noRelComponent ∧
+    (reachRB noProbe 2 2 (demoOps.take 9 ++ [.base (.new .typed [1, 2] [] [])])).w.tables.length = 6 ∧
+    (execRB noProbe (reachRB noProbe 2 2 (demoOps.take 9 ++ [.base (.new .typed [1, 2] [] [])])).w
+      (.setrelb .typed (has [2]) [] [⟨0, pb⟩])).state.tables.length = 7 ∧
+    (execRB noProbe (reachRB noProbe 2 2 (demoOps.take 9 ++ [.base (.new .typed [1, 2] [] [])])).w
+      (.setrelb .typed (has [2]) [] [⟨0, pb⟩])).state.isLocked = false ∧
+    (execRB noProbe (reachRB noProbe 2 2 (demoOps.take 9 ++ [.base (.new .typed [1, 2] [] [])])).w
+      (.setrelb .typed (has [2]) [] [⟨0, pb⟩])).state.entities =
+      (reachRB noProbe 2 2 (demoOps.take 9 ++ [.base (.new .typed [1, 2] [] [])])).w.entities := by
   decide +kernel
 
 /-! ## non-vacuity: exchange batches over relation tables
@@ -912,14 +934,25 @@ example :
 
 /-- **finding (why the precondition of an exchange batch on every selected entity is part of
     `guardRB`)**, on relation tables as on plain ones: "has `Pos`: add `ChildOf → gp`" meets its
-    precondition on `gp` and fails it on the five entities that already have `ChildOf`.  The call
-    panics (`alreadyHas`) AFTER taking the world lock: the world stays LOCKED.  Not a step. -/
+    precondition on `gp` and fails it on the five entities that already have `ChildOf`.  The
+    planning loop creates the destination table of `gp`'s table (5 → 6 tables) and then panics
+    (`alreadyHas`).  Since the repair D27 the lock is taken only after the planning, so the world
+    is not left locked and later operations go on; but the table created by the planning remains:
+    the call is not "rejected with the world unchanged".  Not a step. -/
 example :
     guardRB (reachRB noProbe 2 2 (demoX.take 9)) (.xchgb .typed (has [1]) [] [0] [] [⟨0, gp⟩]) = false ∧
     panicOf (execRB noProbe (reachRB noProbe 2 2 (demoX.take 9)).w
       (.xchgb .typed (has [1]) [] [0] [] [⟨0, gp⟩])) = some .alreadyHas ∧
+    (reachRB noProbe 2 2 (demoX.take 9)).w.tables.length = 5 ∧
     (execRB noProbe (reachRB noProbe 2 2 (demoX.take 9)).w
-      (.xchgb .typed (has [1]) [] [0] [] [⟨0, gp⟩])).state.isLocked = true := by
+      (.xchgb .typed (has [1]) [] [0] [] [⟨0, gp⟩])).state.tables.length = 6 ∧
+    (execRB noProbe (reachRB noProbe 2 2 (demoX.take 9)).w
+      (.xchgb .typed (has [1]) [] [0] [] [⟨0, gp⟩])).state.isLocked = false ∧
+    (execRB noProbe (reachRB noProbe 2 2 (demoX.take 9)).w
+      (.xchgb .typed (has [1]) [] [0] [] [⟨0, gp⟩])).state.entities =
+      (reachRB noProbe 2 2 (demoX.take 9)).w.entities ∧
+    panicOf (execRB noProbe (execRB noProbe (reachRB noProbe 2 2 (demoX.take 9)).w
+      (.xchgb .typed (has [1]) [] [0] [] [⟨0, gp⟩])).state (.base (.new .typed [1] [] []))) = none := by
   decide +kernel
 
 end Ark.Props.C01RelBatch
